@@ -6,7 +6,7 @@ from props.commands import *
 import specgen
 
 def gen_styles(tier, rng):
-    n = 1200 if tier == "quick" else 20000
+    n = 1200 if tier == "quick" else 60000
     out = []
     for _ in range(n):
         doc = specgen.Doc(rng, max_records=5, max_entries=3)
